@@ -391,6 +391,30 @@ func TestC12(t *testing.T) {
 			}
 		}
 	}
+	// large operands (a few thousand elements, around the powers of two): whatever switches strategy by size
+	for _, op := range []string{"Neg", "Square", "Abs", "Sqrt"} {
+		for _, mode := range []string{"safe", "unsafe", "reuse", "incr"} {
+			op, mode := op, mode
+			cell(t, "C12", "EW", "large/"+op+"/"+mode, nCases(1, 12), func(rt *rapid.T) Case {
+				d := rapid.SampledFrom([]DT{dtF64, dtInt32, dtF32}).Draw(rt, "dt")
+				if !opSupports("unary", op, d) {
+					d = dtF64
+				}
+				c := genUnaryCase(rt, "C12", op, d, mode, []string{"contig"})
+				shape := rapid.SampledFrom([][]int{{70, 60}, {64, 64}, {65, 63}, {4097}, {2, 2049}, {16, 16, 17}, {1025, 4}}).Draw(rt, "bigshape")
+				lk := rapid.SampledFrom([]string{"contig", "lazyT", "lazyT", "sliced", "physT"}).Draw(rt, "lk")
+				c.A = genOpnd(rt, shape, lk, 0, 9, 0, "big")
+				if c.Dst != nil {
+					c.Dst = genDst(rt, shape, d, "bigdst")
+					c.Dst.L = Layout{Root: "rm"}
+					for i := range c.Dst.Codes {
+						c.Dst.Codes[i] = int64(i % 7)
+					}
+				}
+				return c
+			})
+		}
+	}
 	c12ApplyCells(t)
 }
 
